@@ -18,6 +18,10 @@ pub fn install_panic_hook() {
         } else {
             "<non-string panic>".to_string()
         };
+        if msg.starts_with("harness:") {
+            // the harness's own assertions about the implementation: reported on stderr, the process then dies
+            eprintln!("{}", msg);
+        }
         LAST_PANIC.with(|l| *l.borrow_mut() = msg);
     }));
 }
